@@ -257,7 +257,7 @@ class LockAnalysis:
 def check_guarded(ctx, db, rid, guarded, classes, per_instance=False, floor=1):
     """every access to a guarded field happens with its mutex held, on every path from every entry point"""
     ctx.rule(rid, 'LOCKSET', 'every read/write/member call of a field in the guarded-field table happens while the object\'s mutex is held: locally, or in '
-             'every caller (summary needs(F)); constructors and destructors are exempt for their own fields', floor=floor)
+             'every caller (summary needs(F)); constructors and destructors are exempt for their own fields [table: %s]' % ', '.join(sorted(k.split('::', 1)[-1] for k in guarded)), floor=floor)
     la = LockAnalysis(db, guarded)
     nacc = 0
     for key in db.keys():
